@@ -124,6 +124,7 @@ def _components(repo, ci, dim):
 
 def run(ctx):
     repo = ctx.repo
+    _wrapper_dimensions(ctx, repo)
     ctx.decided += [
         'C03.a eigen-component tables are complete orthogonal Hermitian projectors of the right dimension with real half-turns',
         'C03.b sum_k exp(i pi theta_k) P_k equals the textbook matrix of the family (big-endian), incl. qutrit X/Z',
@@ -406,3 +407,31 @@ def _linear(expr, sym):
     if abs(v0) > 1e-12 or abs(v2 - 2 * v1) > 1e-12:
         return None
     return v1
+
+
+def _wrapper_dimensions(ctx, repo):
+    """C03.g - gates / operations that wrap an arbitrary sub-gate size their matrices by the sub-gate's qid shape, not by 2**n."""
+    ctx.decided.append('C03.g wrappers of an arbitrary sub-gate or sub-operation (controlled, random, parallel, tagged, classically controlled ...) never compute a matrix dimension as '
+                       '2**num_qubits / 1 << n: the wrapped gate may act on qudits, its dimension is the product of its qid shape')
+    ctx.rule('C03.g', 'qid-shape dimensions in wrappers: in every class of cirq.ops that reads self.sub_gate / self._sub_gate / self.sub_operation / self._sub_operation, no expression '
+             '2 ** <...> or 1 << <...> involves num_qubits(...) or len(...) of qubits', floor=5, style='TBL')
+    n = 0
+    for ci in sorted(repo.classes.values(), key=lambda c: c.qual):
+        if not ci.qual.startswith('cirq.ops.') or ci.mod.rel.endswith('_test.py'):
+            continue
+        if not any(isinstance(x, ast.Attribute) and x.attr in ('sub_gate', '_sub_gate', 'sub_operation', '_sub_operation') and isinstance(x.value, ast.Name) and x.value.id == 'self'
+                   for x in ast.walk(ci.node)):
+            continue
+        n += 1
+        bad = []
+        for b in ast.walk(ci.node):
+            if isinstance(b, ast.BinOp) and ((isinstance(b.op, ast.Pow) and isinstance(b.left, ast.Constant) and b.left.value == 2)
+                                             or (isinstance(b.op, ast.LShift) and isinstance(b.left, ast.Constant) and b.left.value == 1)):
+                src = ast.unparse(b.right)
+                if 'num_qubits' in src or 'qubits' in src or 'num_controls' in src:
+                    bad.append(b)
+        ctx.ob('C03.g', f'{ci.qual}:qid-shape-dimensions', not bad, '' if not bad else
+               f'`{ast.unparse(bad[0])}` sizes a matrix of {ci.name} as a power of two: for a sub-gate on qutrits the identity / embedding has the wrong shape '
+               '(use the product of protocols.qid_shape)', ci.mod.rel, (bad[0].lineno if bad else ci.node.lineno))
+    if n == 0:
+        raise AnalysisError('C03.g: no wrapper class found')
